@@ -7,6 +7,32 @@ from .calspec import Cal
 from .core import run_driver
 
 
+def alt_float_sensitive(p):
+    """`_estimateCompletionTime` subtracts the per-slot effort repeatedly in doubles; when the effort is an
+    exact multiple of the per-slot effort the loop condition `remaining > 0` is decided by rounding noise,
+    which can flip the choice between primary and alternative (not a property violation; not compared)"""
+    from fractions import Fraction
+    from .oracles import res_eff, local_to_full
+    eff = res_eff(p)
+    l2f = local_to_full(p)
+    G = p.get("G", 3600)
+    for fid, t, par, _ in A.flat_tasks(p):
+        if t.get("alt") and t.get("alloc"):
+            efforts = [t.get("effort")] + [ov.get("effort") for ov in (t.get("sc") or {}).values()]
+            for e in efforts:
+                if not e:
+                    continue
+                eh = A.effort_hours(e)
+                for rid in (t["alloc"][0], t["alt"][0]):
+                    f = l2f.get(rid)
+                    if f is None:
+                        continue
+                    per = Fraction(G, 3600) * eff[f]
+                    if per > 0 and (eh / per).denominator == 1:
+                        return True
+    return False
+
+
 def run_projects(chk, asts, again=0, config="native", want_oracles=("C01", "C02", "C03", "C04", "C05", "C06", "C08", "C10")):
     """returns list of dict(ast, text, obs, per-scenario model answers, diffs, oracle failures)"""
     texts = [render.render(p) for p in asts]
@@ -26,6 +52,8 @@ def run_projects(chk, asts, again=0, config="native", want_oracles=("C01", "C02"
         if "error" in obs:
             continue
         scs = A.scenario_ids(p)
+        if alt_float_sensitive(p):
+            r["skipped"] = "float-boundary: alternative estimate hits zero exactly"
         for si, (sid, parent) in enumerate(scs):
             try:
                 req = modelio.build_request(p, sid if p.get("scenarios") else None)
@@ -46,6 +74,10 @@ def run_projects(chk, asts, again=0, config="native", want_oracles=("C01", "C02"
             r["diffs"].append(f"model answered {mo[:100]}")
             continue
         model = json.loads(mo[2:])
+        if "rounding-tie" in model["warnings"]:
+            # a finishing date rounded from an exact .5: Python rounds the double, which may sit on either side
+            model["warnings"] = [w for w in model["warnings"] if w != "rounding-tie"]
+            r["skipped"] = r["skipped"] or "float-boundary: rounding tie"
         r.setdefault("model", []).append(model)
         # with several scenarios the implementation's final project end is the last scenario's
         obs_end = obs["end"] if si == len(obs["scenarios"]) - 1 else model["end"]
